@@ -7,7 +7,8 @@ from .c06 import run_scheme_corpus
 def main(chk: core.Check, replay):
     if replay:
         return core.replay_generic(chk, replay)
-    run_scheme_corpus(chk, "C05", {"explicit_euler", "generate"}, fams=[3, 4] if chk.tier == "quick" else [1, 2, 3, 4])
+    run_scheme_corpus(chk, "C05", {"explicit_euler", "generate"}, fams=[3, 4, 5] if chk.tier == "quick" else [1, 2, 3, 4, 5],
+                      schemes=["explicit_euler"])
     structural.run(chk, "C05")
 
 
